@@ -176,7 +176,17 @@ func (o Outcome) Key() string {
 	if o.End == "stop" && o.StopBlock != nil {
 		end = fmt.Sprintf("stop@%d", o.StopBlock.Index)
 	}
-	return fmt.Sprintf("[%s] -> %s ret(%s) phi(%s)", strings.Join(o.Effects, "; "), end, strings.Join(rets, ","), strings.Join(phis, ","))
+	// which values are returned (by identity, through inlined callees) distinguishes paths too
+	var rvs []string
+	for _, rv := range o.RetVals {
+		r := o.Root(rv)
+		if in, ok := r.(ssa.Instruction); ok && in.Parent() != nil {
+			rvs = append(rvs, fmt.Sprintf("%s.%s@%d", in.Parent().Name(), r.Name(), in.Pos()))
+		} else if r != nil {
+			rvs = append(rvs, r.Name())
+		}
+	}
+	return fmt.Sprintf("[%s] -> %s ret(%s) phi(%s) vals(%s)", strings.Join(o.Effects, "; "), end, strings.Join(rets, ","), strings.Join(phis, ","), strings.Join(rvs, ","))
 }
 
 // Eval computes the abstract value of v on the current path.
@@ -819,3 +829,11 @@ func bindResultValues(call *ssa.Call, rvals []ssa.Value, st *State) {
 
 // Effects returns the effects recorded so far on this path.
 func (s *State) Effects() []string { return s.effects }
+
+// Root maps a value to what it denotes on this outcome's path (see State.Root).
+func (o Outcome) Root(v ssa.Value) ssa.Value {
+	if o.st == nil {
+		return v
+	}
+	return o.st.Root(v)
+}
